@@ -15,6 +15,12 @@
  * event_base_get_num_events / get_max_events, callbacks (order, result flags, count) are
  * compared with the model and event_base_assert_ok_nolock_() runs with asserts live.
  */
+#ifdef C02_NOUNION
+/* struct event's three unions laid out as structs (env/event_struct_nounion.h, shared with group B):
+ * lifts the cbmc limitation described in run(); sound because the library never writes one member
+ * of these unions and reads another (see that header); nothing here is a claim about layout */
+#include "event_struct_nounion.h"
+#endif
 #include "vp.h"
 #include "log_stub.h"
 #include "locks.h"
@@ -107,34 +113,67 @@ static int m_add(int k, const struct timeval *tv, int absolute, int backend_refu
 	return 0;
 }
 /* one event_base_loop(EVLOOP_NONBLOCK) with nothing reported by the back end */
+/* head of common-timeout queue qi: the member inserted first (FIFO) */
+static int m_qhead(int qi)
+{
+	int k, h = -1;
+	for (k = 0; k < 2; k++) if (m[k].has_to && m[k].to_queue == qi && (h < 0 || m[k].to_seq < m[h].to_seq)) h = k;
+	return h;
+}
+static void m_expire(int k)
+{
+	if (!m[k].active) { m_del(k); m_activate(k, EV_TIMEOUT, 1); }
+	else { m[k].has_to = 0; dec(); m[k].res |= EV_TIMEOUT; }     /* already active: keeps its result flags, gains EV_TIMEOUT */
+}
 static int m_loop(void)
 {
-	int round, k, j;
-	for (round = 0; round < NPRI + 2; round++) {
+	/* iq_*: the internal timer event of each common-timeout queue (priority 0, not counted as
+	 * an added event, but it is an active callback while queued) */
+	int iq_active[2] = { 0, 0 }; long iq_seq[2] = { 0, 0 };
+	int round, k, j, qi, p;
+	for (round = 0; round < NPRI + 3; round++) {
+		int any = 0;
 		if (m_count == 0) return 1;          /* nothing pending or active: the loop exits with 1 */
-		/* expiry, earliest deadline first */
-		for (j = 0; j < 2; j++) {
-			int best = -1;
+		/* expiry (timeout_process): heap entries = ordinary timers and one internal timer per
+		 * non-empty queue (deadline of the queue head), earliest deadline first */
+		for (j = 0; j < 4; j++) {
+			int best = -1, bestq = -1; struct timeval bd = { 0, 0 };
 			for (k = 0; k < 2; k++)
-				if (m[k].has_to && t_le(m[k].deadline, vp_now) && (best < 0 || t_lt(m[k].deadline, m[best].deadline) ||
-				    (m[k].to_queue >= 0 && m[k].to_queue == m[best].to_queue && !t_lt(m[best].deadline, m[k].deadline) && m[k].to_seq < m[best].to_seq))) best = k;
-			if (best < 0) break;
+				if (m[k].has_to && m[k].to_queue < 0 && t_le(m[k].deadline, vp_now) && (best < 0 || t_lt(m[k].deadline, bd))) { best = k; bd = m[k].deadline; }
+			for (qi = 0; qi < 2; qi++) {
+				int h = m_qhead(qi);
+				if (h >= 0 && !iq_active[qi] && t_le(m[h].deadline, vp_now) && ((best < 0 && bestq < 0) || t_lt(m[h].deadline, bd))) { bestq = qi; best = -1; bd = m[h].deadline; }
+			}
+			if (best < 0 && bestq < 0) break;
+			/* equal deadlines among heap entries: their relative order is unspecified */
 			for (k = 0; k < 2; k++)
-				if (k != best && m[k].has_to && m[k].deadline.tv_sec == m[best].deadline.tv_sec && m[k].deadline.tv_usec == m[best].deadline.tv_usec &&
-				    !(m[k].to_queue >= 0 && m[k].to_queue == m[best].to_queue)) m_tie = 1;   /* (one common-timeout queue is FIFO: its order IS specified) */
-			if (!m[best].active) { m_del(best); m_activate(best, EV_TIMEOUT, 1); }
-			else { m[best].has_to = 0; dec(); m[best].res |= EV_TIMEOUT; }
+				if (k != best && m[k].has_to && m[k].to_queue < 0 && t_le(m[k].deadline, vp_now) && !t_lt(bd, m[k].deadline) && !t_lt(m[k].deadline, bd)) m_tie = 1;
+			for (qi = 0; qi < 2; qi++) {
+				int h = m_qhead(qi);
+				if (qi != bestq && h >= 0 && !iq_active[qi] && !t_lt(bd, m[h].deadline) && !t_lt(m[h].deadline, bd)) m_tie = 1;
+			}
+			if (bestq >= 0) { iq_active[bestq] = 1; iq_seq[bestq] = m_seq++; inc_active(); }
+			else m_expire(best);
 		}
-		/* run the most urgent non-empty priority, in activation order */
-		{
-			int p = -1;
-			for (k = 0; k < 2; k++) if (m[k].active && (p < 0 || m[k].pri < p)) p = m[k].pri;
-			if (p < 0) return 0;
-			for (j = 0; j < 2; j++) {
-				int best = -1; short res; int n, c;
+		/* run priority levels in ascending order; stop after the first level in which a
+		 * non-internal callback ran */
+		for (p = 0; p < NPRI; p++) {
+			int ran = 0;
+			for (j = 0; j < 6; j++) {
+				int best = -1, bestq = -1; long bs = 0; short res; int n, c;
 				for (k = 0; k < 2; k++)
-					if (m[k].active && m[k].pri == p && (best < 0 || m[k].seq < m[best].seq)) best = k;
-				if (best < 0) break;
+					if (m[k].active && m[k].pri == p && ((best < 0 && bestq < 0) || m[k].seq < bs)) { best = k; bs = m[k].seq; }
+				if (p == 0) for (qi = 0; qi < 2; qi++)
+					if (iq_active[qi] && ((best < 0 && bestq < 0) || iq_seq[qi] < bs)) { bestq = qi; best = -1; bs = iq_seq[qi]; }
+				if (best < 0 && bestq < 0) break;
+				any = 1;
+				if (bestq >= 0) {
+					/* common_timeout_callback: every due member of the queue, in FIFO order */
+					int h, g;
+					iq_active[bestq] = 0; m_active--;
+					for (g = 0; g < 2; g++) { h = m_qhead(bestq); if (h < 0 || !t_le(m[h].deadline, vp_now)) break; m_expire(h); }
+					continue;
+				}
 				res = m[best].res;
 				if (persist(best)) {
 					m_deactivate(best);
@@ -149,8 +188,11 @@ static int m_loop(void)
 				}
 				n = (m[best].events & EV_SIGNAL) ? m[best].ncalls : 1;
 				for (c = 0; c < n; c++) { if (nwant < MAXCB) { want[nwant].ev = best; want[nwant].res = res; } nwant++; }
+				ran++;
 			}
+			if (ran) break;
 		}
+		if (!any) return 0;
 	}
 	return 0;
 }
@@ -328,8 +370,10 @@ static void run(int depth)
 	 * hand in these histories (stated in OUT); all other combinations are explored. */
 	if (op < 24) {
 		int o = op % 12;
+#ifndef C02_NOUNION
 		if (kind[k] == K_IO_P) __CPROVER_assume(o != 1 && o != 2);
 		if (kind[k] == K_SIG_P) __CPROVER_assume(o < 4 || o > 8);
+#endif
 #ifndef KF_ONLY_sigtimeout
 		/* known finding KF-C02-signal-timeout-drops-persistent-signal: a persistent signal event
 		 * that is given a timeout is deleted (signal registration included) when the timeout
